@@ -122,6 +122,26 @@ class ModeMismatch(Exception):
     pass
 
 
+class Corrupt(Exception):
+    """
+    An OBSERVATION of the session failed or returned an impossible picture (public get_pixels / get_chars /
+    VideoBuffer.pixels raised, or a page buffer no longer has width*height pixels).  That is evidence about
+    the code under test: checks report it as  frame:page-buffer-corrupted:<what>  and replace the session.
+    """
+
+    def __init__(self, what, detail=''):
+        Exception.__init__(self, '%s %s' % (what, detail))
+        self.what = what
+        self.detail = detail
+
+
+def _observe(fn, *args):
+    try:
+        return fn(*args)
+    except Exception as e:       # noqa: an exception out of an accessor is a finding, not a harness failure
+        raise Corrupt(type(e).__name__, 'in %s: %s' % (getattr(fn, '__name__', 'accessor'), e))
+
+
 class GBox(object):
     """
     A sandboxed session put into one graphics (or text) mode, with
@@ -183,7 +203,7 @@ class GBox(object):
         self.w, self.h = m['w'], m['h']
         self.nattr = 1 << m['bpp']
         self.npages = len(self.display.pages)
-        px = self.box.s.get_pixels()
+        px = _observe(self.box.s.get_pixels)
         if len(px) != self.h or len(px[0]) != self.w:
             raise ModeMismatch('%s: get_pixels is %dx%d, table says %dx%d' % (
                 m['label'], len(px[0]), len(px), self.w, self.h))
@@ -204,48 +224,58 @@ class GBox(object):
         return not code
 
     def validate_fast(self, px=None):
-        """Cross-check the fast snapshot path against the public accessors."""
+        """Cross-check the fast snapshot path against the public accessors (which must not raise)."""
         pages = self.display.pages
-        try:
-            ok = all(_page_fast(p) == _page_public(p) for p in pages)
-        except Exception:
-            ok = False
+        public = [_observe(_page_public, p) for p in pages]
         if px is None:
-            px = self.box.s.get_pixels()
+            px = _observe(self.box.s.get_pixels)
         flat = b''.join(bytes(r) for r in px)
+        for i, data in enumerate(public):
+            self._sized(data, i)
         try:
-            ok = ok and _page_fast(pages[self.vpage]) == flat
+            ok = all(_page_fast(p) == d for p, d in zip(pages, public)) and _page_fast(pages[self.vpage]) == flat
         except Exception:
             ok = False
         if not ok:
+            if public[self.vpage] != flat:
+                raise Corrupt('public-views-disagree', 'Session.get_pixels differs from VideoBuffer.pixels of the visible page')
             if self.fast:
                 self.fallbacks += 1
             self.fast = False
         return ok
 
+    def _sized(self, data, page):
+        if self.w is not None and len(data) != self.w * self.h:
+            raise Corrupt('page-size', 'page %d holds %d pixels instead of %dx%d' % (page, len(data), self.w, self.h))
+        return data
+
     def snap(self):
         pages = self.display.pages
         if self.fast:
             try:
-                return [b''.join(p._pixels._rows) for p in pages]
+                return [self._sized(b''.join(p._pixels._rows), i) for i, p in enumerate(pages)]
+            except Corrupt:
+                raise
             except Exception:
                 self.fast = False
                 self.fallbacks += 1
-        return [_page_public(p) for p in pages]
+        return [self._sized(_observe(_page_public, p), i) for i, p in enumerate(pages)]
 
     def active(self):
         p = self.display.pages[self.apage]
         if self.fast:
             try:
-                return b''.join(p._pixels._rows)
+                return self._sized(b''.join(p._pixels._rows), self.apage)
+            except Corrupt:
+                raise
             except Exception:
                 self.fast = False
                 self.fallbacks += 1
-        return _page_public(p)
+        return self._sized(_observe(_page_public, p), self.apage)
 
     def chars(self):
         """Characters of all pages (text-mode frame condition)."""
-        return [p.get_chars() for p in self.display.pages]
+        return [_observe(p.get_chars) for p in self.display.pages]
 
     # -- execution -----------------------------------------------------------------------
     def trap(self, stmt, budget=None):
